@@ -5,7 +5,7 @@
    Labels: LC coarse (Selected 1), LF fine (Unselected 0), LN isolated (NoNeighbors -2), LU unassigned (-1). *)
 From Coq Require Import List Arith Lia Bool.
 Import ListNotations.
-From Raptor Require Import Amg.Split Amg.SplitProofs.
+From Raptor Require Import Amg.Split Amg.SplitProofs Amg.SplitMisProofs Amg.SplitRsProofs.
 
 (* The checker run on every gathered output of the library (all routines, sequential and distributed)
    decides the property's clauses. *)
@@ -40,5 +40,84 @@ Example C13_rs_fine_has_coarse_nonvacuous :
   split_rs [[0; 1]; [1; 0; 2]; [2; 1]] = [LF; LC; LF].
 Proof. reflexivity. Qed.
 
+(* Ruge-Stuben on a pattern with at least one edge u -> t (t <> u): at least one point is coarse; at least one
+   is fine as soon as the first pass leaves no point unassigned.
+   The preconditions are the ones the code itself needs: column indices in range, no duplicate of the
+   diagonal left in a row, and every in-degree below n (it indexes weight_sizes[]).
+   PARTIAL: the hypothesis "first pass leaves no point unassigned" (totality of the first pass) needs the
+   bucket invariant of rs_first_pass; see C13_rs_total_partial below - until that is closed it is checked on
+   every run by split_ok. *)
+Theorem C13_rs_coarse_and_fine_partial (G : graph) :
+  graph_wfb G = true ->
+  (forall c, c < length G -> length (nth c (col_lists (off_rows G)) []) < length G) ->
+  (forall i, ~ In i (nth i (off_rows G) [])) ->
+  (exists u t, In t (nth u (off_rows G) [])) ->
+  (exists c, c < length G /\ nth c (split_rs G) LU = LC) /\
+  ((forall v, v < length G -> nth v (split_rs_gen G None false) LU <> LU) ->
+   exists f, f < length G /\ nth f (split_rs G) LU = LF).
+Proof. apply rs_coarse_and_fine. Qed.
+
+(* after the first pass alone both exist unconditionally *)
+Theorem C13_rs_first_pass_coarse_and_fine (G : graph) :
+  graph_wfb G = true ->
+  (forall c, c < length G -> length (nth c (col_lists (off_rows G)) []) < length G) ->
+  (forall i, ~ In i (nth i (off_rows G) [])) ->
+  (exists u t, In t (nth u (off_rows G) [])) ->
+  let st := split_rs_gen G None false in
+  length st = length G /\
+  exists c f, c < length G /\ f < length G /\ nth c st LU = LC /\ nth f st LU = LF.
+Proof. apply first_pass_coarse_fine. Qed.
+
+Example C13_rs_coarse_and_fine_nonvacuous :
+  let G := [[0; 1]; [1; 0; 2]; [2; 1]] in
+  graph_wfb G = true /\
+  (forall c, c < length G -> length (nth c (col_lists (off_rows G)) []) < length G) /\
+  (forall i, ~ In i (nth i (off_rows G) [])) /\
+  (exists u t, In t (nth u (off_rows G) [])) /\
+  (forall v, v < length G -> nth v (split_rs_gen G None false) LU <> LU).
+Proof.
+  cbv zeta. split; [reflexivity|]. split.
+  - intros c Hc. change (length [[0; 1]; [1; 0; 2]; [2; 1]]) with 3 in *.
+    destruct c as [|[|[|c]]]; [vm_compute; lia|vm_compute; lia|vm_compute; lia|lia].
+  - split.
+    + intros i. destruct i as [|[|[|i]]]; [vm_compute; intuition lia|vm_compute; intuition lia|vm_compute; intuition lia|].
+      intros H. rewrite nth_overflow in H by (vm_compute; lia). exact H.
+    + split; [exists 0, 1; vm_compute; auto|].
+      intros v Hv. change (length [[0; 1]; [1; 0; 2]; [2; 1]]) with 3 in *.
+      destruct v as [|[|[|v]]]; [vm_compute; discriminate|vm_compute; discriminate|vm_compute; discriminate|lia].
+Qed.
+
+(* CLJP and PMIS with ANY caller-supplied weights over an ordered carrier: every round assigns at least the
+   maximal unassigned vertex, so n rounds of fuel suffice (termination) and every point ends coarse or fine. *)
+Section C13_MIS.
+Variable F : Type.
+Variables (zero one : F) (add sub : F -> F -> F).
+Variable ltb : F -> F -> bool.
+Hypothesis ltb_trans : forall a b c, ltb a b = true -> ltb b c = true -> ltb a c = true.
+Hypothesis ltb_irrefl : forall a, ltb a a = false.
+Hypothesis lt01 : ltb zero one = true.
+
+Theorem C13_cljp_terminates_total (S : graph) (keys : list F) :
+  graph_wfb S = true -> length keys = length S ->
+  exists st, split_cljp zero one add sub ltb S keys (length S) = Some st /\
+             length st = length S /\ forall v, v < length S -> nth v st LU = LC \/ nth v st LU = LF.
+Proof. apply split_cljp_total; assumption. Qed.
+
+Theorem C13_pmis_terminates_total (S : graph) (keys : list F) :
+  graph_wfb S = true -> length keys = length S ->
+  exists st, split_pmis zero one add ltb S keys (length S) = Some st /\
+             length st = length S /\ forall v, v < length S -> nth v st LU = LC \/ nth v st LU = LF.
+Proof. apply split_pmis_total; assumption. Qed.
+End C13_MIS.
+
+Example C13_mis_nonvacuous :
+  graph_wfb [[0; 1]; [1; 0; 2]; [2; 1]] = true /\
+  split_pmis 0 1 Nat.add Nat.ltb [[0; 1]; [1; 0; 2]; [2; 1]] [0; 0; 0] 3 = Some [LF; LC; LF].
+Proof. split; reflexivity. Qed.
+
 Print Assumptions C13_split_ok_sound.
 Print Assumptions C13_rs_fine_has_coarse.
+Print Assumptions C13_rs_coarse_and_fine_partial.
+Print Assumptions C13_rs_first_pass_coarse_and_fine.
+Print Assumptions C13_cljp_terminates_total.
+Print Assumptions C13_pmis_terminates_total.
